@@ -90,4 +90,18 @@ def createAddr (l : Location) (first : Bytes) (gasCost maxAttempts gas : Nat) (c
   let a := bytesToAddress first l
   if internalAndQuai a then some (a.bytes, gas) else grind l gasCost maxAttempts gas cands
 
+/-- `Transactions.FilterToSub`: which outbound ETXs a dominant chain hands down to one of its subordinates.  Prime
+(`nodeCtx = 0`) hands a region every ETX addressed into that region; a region (`nodeCtx = 1`) hands a zone the ETXs
+addressed to exactly that zone - all of them at a prime-order block, only the standard ones (neither coinbase nor
+conversion) otherwise.  An ETX is (destination bytes, ETX type). -/
+def keepForSub (slice : Location) (nodeCtx order : Nat) (e : Bytes × Nat) : Bool :=
+  let dest := zoneOf e.1
+  let standard := e.2 != 1 && e.2 != 2
+  if nodeCtx = 0 then dest.getD 0 0 == slice.getD 0 0
+  else if nodeCtx = 1 then dest == slice && (order == 0 || standard)
+  else false
+
+def filterToSub (slice : Location) (nodeCtx order : Nat) (l : List (Bytes × Nat)) : List (Bytes × Nat) :=
+  l.filter (keepForSub slice nodeCtx order)
+
 end QuaiVerif.Addr
